@@ -5,6 +5,7 @@ from .. import determinism as D
 from .. import mir as M
 
 META = {
+    "all_features": True,
     "explanation": "In safe Rust (R0: every crate denies/forbids unsafe_code and has no unsafe block or hand-written unsafe impl) a computation whose parallelism comes only from rayon's parallel "
                    "iterators with Fn + Sync closures is a function of its inputs unless it uses one of an enumerable list of nondeterminism sources. The rules enumerate every such source in "
                    "essential-vm and essential-check: R1 every rayon consumer is listed with its resolved output type and must be order-preserving (collect/partition/unzip into Vec/BTreeMap/BTreeSet, "
